@@ -52,6 +52,7 @@ Fixpoint json_eqb (a b : json) {struct a} : bool :=
 (* Coq string literal -> byte string (cases files print printable-ASCII names this way). *)
 Definition s2b (s : string) : bytes :=
   List.map (fun a => Z.of_N (N_of_ascii a)) (list_ascii_of_string s).
+Arguments s2b s%string_scope.
 
 (* Well-formed UTF-8 (Go's utf8.Valid): json.Marshal replaces every invalid byte of a string by
    U+FFFD, so only valid strings keep their identity in JSON. [need] continuation bytes are still
